@@ -7,6 +7,15 @@ NOTES = ("All checks: bin/check <id>. Each run regenerates coq/Gen from /repo, r
          "Known findings: KNOWN_FINDINGS.txt.")
 NOT_APPLICABLE = {}
 CLAIMED = {
+    "C06": {
+        "text": "Theorems: for every history of builds over a shared cache each output equals the cold build's, given that equal keys imply equal cold outputs; a "
+                "no-op rebuild recompiles nothing; garble's key input is injective in action id, binary id, GOGARBLE and flags (C12); every build-affecting flag "
+                "registered in main.go is written by appendFlags for build hashes (obligation over the regenerated source facts); the compile key is refuted "
+                "to be sound under -literals with -ldflags=-X (known finding F7) and proved sound without -literals. Tied by the translator and a history "
+                "runner: each step built on shared caches and from fresh caches, compared bit for bit. Partial: cmd/go's own keying is assumed.",
+        "note": "Trusted: Coq kernel; translator; cmd/go's action keys; real builds. No axioms.",
+        "technique": "Coq proof of memoisation soundness + regenerated key-coverage obligation + build-history differential runs",
+    },
     "C07": {
         "text": "Theorems: after any sequence of deletions, emptyings and truncations of an entry's index and data file the reader answers miss or the complete "
                 "original bytes; for every import graph, package and cache state whose present entries are correct, the reflection information garble loads "
